@@ -575,13 +575,27 @@ func c14Oversize(r *R) {
 	n := 4 + r.Choose(6)
 	bigAt := 1 + r.Choose(n-2)
 	over := []int{-200, 1, 64, 4096, 1 << 20}[r.Choose(5)] // payload size relative to the limit: the envelope adds about 150 bytes
-	r.Sample(map[string]any{"messages": n, "oversized_at": bigAt, "payload_minus_limit": over})
+	// instead of an oversized message: a value no codec is registered for (a plain string, a struct by value, nil) - it
+	// cannot be encoded at all and must be given up like any unsendable message, without disturbing the others
+	unencodable := r.Choose(4) // 0 = oversized message, 1 string, 2 struct value, 3 nil
+	r.Sample(map[string]any{"messages": n, "odd_one_at": bigAt, "payload_minus_limit": over, "odd_one": []string{"oversized", "string value", "struct value", "nil"}[unencodable]})
 	var ref vivid.ActorRef
 	a.Do(func() { ref, _ = a.Sys.CreateRef(c14AddrB, "/sink") })
 	for k := 0; k < n; k++ {
 		size := 24
 		if k == bigAt {
 			size = limit + over
+			switch unencodable {
+			case 1:
+				a.Do(func() { a.Sys.Tell(ref, "a plain string") })
+				continue
+			case 2:
+				a.Do(func() { a.Sys.Tell(ref, struct{ N int }{7}) })
+				continue
+			case 3:
+				a.Do(func() { a.Sys.Tell(ref, nil) })
+				continue
+			}
 		}
 		a.Do(func() { a.Sys.Tell(ref, newRMsg("m", int64(k), size, 0)) })
 	}
@@ -612,6 +626,12 @@ func c14Oversize(r *R) {
 	}
 	if df > 0 {
 		r.Fail("C14/oversized-message-desynchronises-stream", "after the oversized message the receiver reported %d undecodable frame(s): it is parsing the rejected frame's body as frames", df)
+		return
+	}
+	if unencodable != 0 {
+		r.Count("unencodable-message-checked")
+		_ = a.Stop()
+		_ = b.Stop()
 		return
 	}
 	if !got[int64(bigAt)] && dl == 0 {
